@@ -50,3 +50,56 @@ def check_states(run, states):
             bad.append({"what": f"{k}: ada::url reports {got[k]}, the model computes {want[k]}", "state": desc, "line": line})
     run.extra["urlrec_model_states_compared"] = len(uniq)
     return bad
+
+
+# ----------------------------------------------------------------------------- the setters of ada::url (Model/UrlSetters.lean)
+MODELLED_SETTERS = ("set_username", "set_password", "set_port", "set_hash", "set_search", "set_pathname")
+BOOL_SETTERS = ("set_username", "set_password", "set_port", "set_pathname")
+
+
+def fields_line(f):
+    o = lambda v: "!" if v is None else hx(v)
+    return (f"{hx(f['scheme'])} {1 if f['special'] else 0} {hx(f['user'])} {hx(f['pass'])} {o(f['host'])} "
+            f"{f['port'] if f['port'] is not None else '-'} {hx(f['path'])} {o(f['query'])} {o(f['hash'])} {1 if f['opq'] else 0}")
+
+
+def check_setters(run, res, key="sequrl"):
+    """L1 for the setter models of ada::url: every step (state before, setter, value, state after, return value) of the real
+    histories is replayed on the Lean model (driver `url.set`); field values after the call and the return value must agree.
+    res: output of urlcorr.explore (case = (input, base, ops, limit))."""
+    q, meta, seen = [], [], set()
+    for r in res:
+        st, steps = r[key]
+        ops = r["case"][2]
+        if st != "ok" or len(steps) < 2:
+            continue
+        dumps = [s for s in steps if "flags" in s]
+        if len(dumps) != len(ops) + 1:
+            continue
+        lim = r["case"][3]
+        for i, (op, v) in enumerate(ops):
+            if op not in MODELLED_SETTERS:
+                continue
+            b, a = dumps[i], dumps[i + 1]
+            fb = fields_of(b)
+            line = f"url.set {op} {'-' if lim is None else lim} {b['scheme']} {fields_line(fb)} {hx(v)}"
+            if line in seen:
+                continue
+            seen.add(line)
+            q.append(line)
+            meta.append((op, v, a, r[key + "_line"], i, r["case"]))
+    if not q:
+        return []
+    ans, crash = lib.run_lines(lib.driver_path(), q, timeout=900)
+    if crash:
+        run.oblige("corr:Model.UrlSetters (driver)", False, str(crash)[:300])
+        return None
+    bad, per = [], {}
+    for line, (op, v, a, rl, i, case), out in zip(q, meta, ans):
+        per[op] = per.get(op, 0) + 1
+        want = fields_line(fields_of(a)) + (f" r={a.get('r', '1')}" if op in BOOL_SETTERS else " r=1")
+        if out != want:
+            bad.append({"what": f"{op}({v!r}) at step {i + 1}: ada::url ends in [{want}], the model computes [{out}]",
+                        "line": rl, "model_line": line})
+    run.extra["urlsetter_model_steps_compared"] = per
+    return bad
